@@ -1,6 +1,7 @@
 import ZV.Model.C22
+import ZV.Model.C22Der
 /-! line protocol for C22 (see go/props/c22/c22.go):
-    `c22 t <name>` · `c22 f <seq>` · `c22 a <name> <seq>`;  the canonical text of sequences / names is
+    `c22 t <name>` · `c22 f <seq>` · `c22 a <name> <seq>` · `c22 d <name>` (DER leg through ZV.Model.C18) · `c22 s` (the schema term);  the canonical text of sequences / names is
     produced here exactly as the Go harness prints it. -/
 namespace ZV.C22
 
@@ -102,8 +103,17 @@ def nameItems (n : Name) : String :=
 
 def nameDump (n : Name) : String := nameItems n ++ " O=" ++ showSeq n.originalRDNS
 
+/-- the schema term rendered as the harness renders the Go declaration (all field parameters of this type are empty) -/
+def showSchema : C18.Schema → String
+  | .oid => "oid" | .str => "str"
+  | .struct (.fcons p1 s1 (.fcons p2 s2 .fnil)) =>
+    "{" ++ (if p1 == {} then "-" else "?") ++ ":" ++ showSchema s1 ++ ";" ++ (if p2 == {} then "-" else "?") ++ ":" ++ showSchema s2 ++ "}"
+  | .seqOf sn e => (if sn then "LS(" else "L(") ++ showSchema e ++ ")"
+  | _ => "?"
+
 def handle (args : List String) : String :=
   match args with
+  | ["s"] => showSchema rdnSchema
   | ["t", ns] =>
     match parseName ns with
     | some n =>
@@ -122,6 +132,22 @@ def handle (args : List String) : String :=
       let m := fillInto n seq
       nameDump m ++ " | " ++ showSeq (toRDN m)
     | _, _ => "bad-op"
+  | ["d", ns] =>
+    match parseName ns with
+    | some n =>
+      let seq := toRDN n
+      let dom := " dom=" ++ (if seqOK (orNil seq) then "1" else "0")
+      match marshalSeq seq with
+      | .err => "merr" ++ dom
+      | .panic => "panic"
+      | .ok der =>
+        match unmarshalSeq der with
+        | .err => hexStr der ++ " uerr" ++ dom
+        | .panic => "panic"
+        | .ok (dec, rest) =>
+          hexStr der ++ " | " ++ showSeq (some dec) ++ " | rest=" ++ toString rest.length ++ " | " ++
+            nameDump (fill (some dec)) ++ dom
+    | none => "bad-op"
   | _ => "bad-op"
 
 end ZV.C22
